@@ -110,4 +110,10 @@ theorem exResOverlap_layout : Descs2R.layout exResOverlap =
     [⟨.codedConst, "sid", 0, 1, true, 0, 8, 0x22⟩, ⟨.value, "a", 1, 1, true, 4, 4, 0xA⟩, ⟨.value, "b", 1, 1, true, 0, 4, 3⟩] := by
   decide +kernel
 
+/-- `exU16Req` = [sid; s { k; txt : A_UNICODE2STRING low-high "😀A"; rs : RESERVED 8 }; z]: the string is one `value` entry of 48 bits
+    whose pattern is the UTF-16LE bytes `3D D8 00 DE 41 00` read as one big-endian number; no entry for `rs` (byte 8) -/
+theorem exU16Req_layout : Descs2R.layout exU16Req =
+    [⟨.codedConst, "sid", 0, 1, true, 0, 8, 0x22⟩, ⟨.value, "k", 1, 1, true, 0, 8, 9⟩,
+     ⟨.value, "txt", 2, 6, true, 0, 48, 0x3DD800DE4100⟩, ⟨.value, "z", 9, 1, true, 0, 8, 0x77⟩] := by decide +kernel
+
 end OdxVerif.Codec
